@@ -292,6 +292,15 @@ class SelectedMailbox:
     def hide_expunged(self, hide_expunged: bool) -> None:
         self._hide_expunged = hide_expunged
 
+    def abandon(self) -> None:
+        """Forget the per-command state set by :attr:`.hide_expunged` and
+        :meth:`.silence`, for a command that failed before :meth:`.fork`.
+
+        """
+        self._hide_expunged = False
+        self._silenced_flags.clear()
+        self._silenced_sflags.clear()
+
     def add_updates(self, messages: Iterable[CachedMessage],
                     expunged: Iterable[int]) -> None:
         """Update the messages in the selected mailboxes. The ``messages``
